@@ -366,6 +366,7 @@ func C04(c *core.Ctx) {
 	c04Round4(c)
 	c04Round4b(c)
 	c04ReadLoops(c)
+	c04StringAccum(c)
 	// ---- R4.11 (shared with C03 R3.6) the segmented reader steps over every exhausted segment
 	// ---- R4.16 (shared with C10 R10.3) a message whose last fragment arrived leaves the
 	// reassembly store whether or not its payload decodes: removal that waits for a
